@@ -1,4 +1,5 @@
 import SdbModel.Model.Reconciler
+import SdbModel.Generated.RecParams
 
 /-!
 # C15 — Reconciler status write-back never misreports or clobbers
@@ -140,5 +141,9 @@ theorem C15_fallback_keeps_current_fields (r : R) (obj orig : RObj) (rev sid : N
 example :
     let r : R := ({} : R).userPut 1 5
     (r.commitOne ((r.get 1).get!, (r.get 1).get!, 1, 1, false)).objs.map (·.kind) = [.done] := by decide
+
+/-- the structural facts about reconciler/incremental.go and reconciler/retries.go that the model
+    builds in — the conditions under which `commitStatus` writes a status and queues a retry (`R.commitOne`) — hold of the source as it is today (regenerated by `tools/extract` on every run) -/
+theorem C15_source_facts : Gen.recFacts = Rec.expectedFacts := by decide
 
 end Sdb
